@@ -140,6 +140,12 @@ Outcomes(ev) ==
         \cup (IF hy # {} THEN {[pass |-> FALSE, bt |-> "hotspot", rules |-> {r.id : r \in hy}]} ELSE {})
         \cup (IF foreign THEN {[pass |-> FALSE, bt |-> "foreign", rules |-> {}]} ELSE {})
 
+\* A throttling rule of another family may hold the caller inside the call: the entry starts at
+\* ev.t (its response time counts from there) but is recorded when the call returns.
+Tend(ev) == IF "dtms" \in DOMAIN ev
+            THEN ev.t + ev.dtms + (((IF "tn" \in DOMAIN ev THEN ev.tn ELSE 0) + ev.dtsub) \div 1000000)
+            ELSE ev.t
+
 (* ----------------------------- events --------------------------------- *)
 Reset(ev) ==
     /\ ev.e = "reset"
@@ -166,10 +172,10 @@ Load(ev) ==
 
 \* o is the outcome taken (one of Outcomes(ev))
 Enter(ev, o) ==
-    /\ ev.e = "enter" /\ on /\ ev.t >= now /\ now' = ev.t
+    /\ ev.e = "enter" /\ on /\ ev.t >= now /\ now' = Tend(ev)
     /\ o \in Outcomes(ev)
     /\ LET kind == IF o.pass THEN "pass" ELSE "block"
-           upd(nd) == LET a == Record(nd, ev.t, kind, ev.n) IN
+           upd(nd) == LET a == Record(nd, Tend(ev), kind, ev.n) IN
                       IF o.pass THEN [a EXCEPT !.conc = @ + 1] ELSE a
            n1 == (ev.res :> upd(Node(ev.res))) @@ nodes
        IN  nodes' = IF Inb(ev) THEN (INB :> upd(IF INB \in DOMAIN n1 THEN n1[INB] ELSE [g |-> <<>>, conc |-> 0])) @@ n1 ELSE n1
